@@ -101,7 +101,7 @@ def openssh_case(maxkey):
 
 
 HDR = ["none", "ok", "no-dek-info", "dek-no-comma", "dek-two-commas", "dek-name-damaged", "unknown-cipher", "bad-proc-type",
-       "salt-not-hex", "salt-odd-length", "salt-short"]
+       "salt-not-hex", "salt-odd-length", "salt-short", "header-value-with-a-second-colon-space", "header-line-without-colon"]
 
 
 def pem_case():
@@ -117,9 +117,13 @@ def pem_case():
             dek = {"ok": "AES-128-CBC," + salt, "no-dek-info": None, "dek-no-comma": "AES-128-CBC" + salt,
                    "dek-two-commas": "AES-128-CBC,%s,x" % salt, "dek-name-damaged": "AES-128-CBC," + salt,
                    "unknown-cipher": "ROT13," + salt, "bad-proc-type": "AES-128-CBC," + salt, "salt-not-hex": "AES-128-CBC,zz" + salt[2:],
-                   "salt-odd-length": "AES-128-CBC," + salt[:-1], "salt-short": "AES-128-CBC,0123"}[v]
+                   "salt-odd-length": "AES-128-CBC," + salt[:-1], "salt-short": "AES-128-CBC,0123",
+                   "header-value-with-a-second-colon-space": "AES-128-CBC," + salt + ": spliced: text",
+                   "header-line-without-colon": "AES-128-CBC," + salt}[v]
             if dek is not None:
                 lines.append("%s: %s\n" % ("DEK-Info" if v != "dek-name-damaged" else "DEK_Info", dek))
+            if v == "header-line-without-colon":
+                lines.append("Comment without the usual separator\n")
             lines.append("\n")
         lines += [body + "\n", "-----END RSA PRIVATE KEY-----\n"]
         if ctx.flag("openssh-style-markers"):
